@@ -1312,8 +1312,21 @@ impl Engine for OtlpSim {
                                 Step::Emit(i) => {
                                     sc.set_nonblocking(Some("Otlp::emit"));
                                     let nested = if events[i].reenter && i + 1 < events.len() && !emitted_ix.contains(&(i + 1)) { Some(i + 1) } else { None };
-                                    emit_one(&otlp, &events[i], i as u64, nested.map(|j| (&events[j], j as u64)));
+                                    let r = panic::catch_unwind(AssertUnwindSafe(|| emit_one(&otlp, &events[i], i as u64, nested.map(|j| (&events[j], j as u64)))));
                                     sc.set_nonblocking(None);
+                                    if r.is_err() {
+                                        let msg = crate::core::take_last_panic().unwrap_or_default();
+                                        let what = format!(
+                                            "Otlp::emit panicked for {}{}: {msg}; an event whose emit does not return is exported through no signal and counted nowhere",
+                                            events[i].marker,
+                                            nested.map(|j| format!(" (with {} emitted from inside its formatting)", events[j].marker)).unwrap_or_default()
+                                        );
+                                        sc.violate("C14", "emit_panicked", what.clone());
+                                        sc.violate("C12", "emit_panicked", what.clone());
+                                        sc.violate("C09", "emit_panicked", what.clone());
+                                        sc.violate("C08", "emit_panicked", what);
+                                        continue;
+                                    }
                                     if let Some(j) = nested {
                                         // accepted first: it was emitted while the outer event was still being encoded
                                         emitted += 1;
